@@ -4,6 +4,7 @@ import (
 	"fmt"
 	"math/big"
 	"slices"
+	"strings"
 
 	"github.com/nspcc-dev/neo-go/pkg/config"
 	"github.com/nspcc-dev/neo-go/pkg/core"
@@ -34,11 +35,12 @@ type world struct {
 	valSigner neotest.Signer     // default multisig of the first V standby keys: genesis holder + block signer
 	users     []*wallet.Account  // plain single-signature accounts
 	cands     []*keys.PrivateKey // keys that may be registered as candidates (standby first, then extra)
-	notaryKey *keys.PrivateKey   // designated P2PNotary node
+	notaryKey *keys.PrivateKey   // designated P2PNotary node that signs
+	notaryAll []*keys.PrivateKey // all designated P2PNotary nodes (1-3), in the order Designate stores them
 
 	neoH, gasH, notaryH, treasuryH, policyH, desigH, mgmtH util.Uint160
-	wallets                                               []util.Uint160 // deployed Wallet contracts
-	nopay                                                 util.Uint160   // deployed contract without onNEP17Payment
+	wallets                                                []util.Uint160 // deployed Wallet contracts
+	nopay                                                  util.Uint160   // deployed contract without onNEP17Payment
 
 	nonce      uint32
 	notaryFrom uint32 // first block index at which the designated notary node is effective
@@ -151,8 +153,15 @@ func newWorld(t *tb, r *prng.R, C, V, nUsers, nExtraCands int) *world {
 		w.aid(acc.ScriptHash())
 		w.signer[acc.ScriptHash()] = neotest.NewSingleSigner(acc)
 	}
-	w.notaryKey = detKey(r)
-	w.aid(w.notaryKey.GetScriptHash())
+	for i, n := 0, 1+r.Intn(3); i < n; i++ {
+		nk := detKey(r)
+		w.notaryAll = append(w.notaryAll, nk)
+	}
+	slices.SortFunc(w.notaryAll, func(a, b *keys.PrivateKey) int { return a.PublicKey().Cmp(b.PublicKey()) })
+	w.notaryKey = w.notaryAll[r.Intn(len(w.notaryAll))]
+	for _, nk := range w.notaryAll {
+		w.aid(nk.GetScriptHash())
+	}
 	return w
 }
 
@@ -202,9 +211,27 @@ func (w *world) addBlock(primary byte, txs ...*transaction.Transaction) (*block.
 // notariesAt: the designated notary nodes' accounts as Notary.OnPersist of block idx sees them.
 func (w *world) notariesAt(idx uint32) string {
 	if w.notaryFrom != 0 && idx >= w.notaryFrom {
-		return fmt.Sprint(w.aid(w.notaryKey.GetScriptHash()))
+		var ids []string
+		for _, nk := range w.notaryAll {
+			ids = append(ids, fmt.Sprint(w.aid(nk.GetScriptHash())))
+		}
+		return strings.Join(ids, ",")
 	}
 	return "-"
+}
+
+// addBlockSafe is addBlock with a panic of the real code turned into a value.
+func (w *world) addBlockSafe(primary byte, txs ...*transaction.Transaction) (b *block.Block, err error, pnc any) {
+	defer func() {
+		if r := recover(); r != nil {
+			if _, ok := r.(failNow); ok {
+				panic(r)
+			}
+			pnc = r
+		}
+	}()
+	b, err = w.addBlock(primary, txs...)
+	return
 }
 
 func sortedHashes(m map[util.Uint160]*big.Int) []util.Uint160 {
